@@ -5,7 +5,7 @@ from .engine import (I, R, B, A1, A2, CPLX, cmul, fresh, OutOfFragment, Contract
                      Gather, ArrCmp, ListObj, Obj, Unbound, PyConst, State, VC, SpecEval, elem_sort, arr_sort,
                      is_z3, to_z3, as_bool, as_num, compare, scalar_binop, array_binop)
 
-TYPE_ARR = {'int1': (1, 'int'), 'int2': (2, 'int'), 'real1': (1, 'real'), 'cplx1': (1, 'cplx'), 'cplx2': (2, 'cplx'), 'int3': (3, 'int')}
+TYPE_ARR = {'bool1': (1, 'bool'), 'int1': (1, 'int'), 'int2': (2, 'int'), 'real1': (1, 'real'), 'cplx1': (1, 'cplx'), 'cplx2': (2, 'cplx'), 'int3': (3, 'int')}
 
 
 class Tag(object):
@@ -19,6 +19,14 @@ class Tag(object):
 
 
 POW2 = z3.Function('pow2', I, I)
+
+
+_FN = [0]
+
+
+def fresh_name(prefix):
+    _FN[0] += 1
+    return '%s!f%d' % (prefix, _FN[0])
 
 
 def fresh_array(prefix, ndim, elem='int', shape=None):
@@ -69,6 +77,7 @@ class Contract(object):
         self.returns = d.get('returns', None)           # type descriptor or tuple of them; '=p' aliases param p
         self.loops = {k: LoopSpec(v) for k, v in d.get('loops', {}).items()}
         self.raises = dict(d.get('raises', {}))         # exc name -> condition over the entry state
+        self.result_term = d.get('result_term')         # spec expression the (array) result equals pointwise on its range
         self.may_raise = list(d.get('may_raise', []))   # exceptions that may be raised on any input (partial correctness: frame only)
         self.hints = dict(d.get('hints', {}))           # site -> list of hints  ('return', 'assert0', ...)
         self.trusted = bool(d.get('trusted', False))    # contract assumed, body not verified (listed in evidence)
@@ -295,6 +304,9 @@ class FuncVerifier(object):
                 for p in post:
                     self.assume(st, p)
             elif kind == 'forall_lemma':
+                opts = {}
+                if isinstance(h[-1], dict):
+                    opts, h = h[-1], h[:-1]
                 if len(h) == 6:
                     binders, name, argexprs = [(h[1], h[2], h[3])], h[4], h[5]
                 else:
@@ -315,7 +327,13 @@ class FuncVerifier(object):
                 if pre:
                     self.oblige(st, '%s.hint%d.%s.pre' % (site, hi_, lem.name),
                                 z3.ForAll(kvs, z3.Implies(rng, z3.And(*pre))))
-                self.assume(st, z3.ForAll(kvs, z3.Implies(rng, z3.And(*post))))
+                if 'trigger' in opts:
+                    # explicit instantiation trigger for the assumed instance family (the solver's own choice may be a term
+                    # that never occurs in the goal)
+                    trig = to_z3(sp.ev_str(opts['trigger']))
+                    self.assume(st, z3.ForAll(kvs, z3.Implies(rng, z3.And(*post)), patterns=[trig]))
+                else:
+                    self.assume(st, z3.ForAll(kvs, z3.Implies(rng, z3.And(*post))))
             else:
                 raise ContractError('unknown hint kind %r' % (kind,))
 
@@ -370,6 +388,9 @@ class FuncVerifier(object):
             av = fresh_array(name, nd, el)
             for d in av.shape:
                 st.pc.append(d >= 0)
+            if el == 'bool':
+                k_ = fresh('k', I)
+                st.pc.append(z3.ForAll([k_], z3.And(0 <= z3.Select(av.term, k_), z3.Select(av.term, k_) <= 1), patterns=[z3.Select(av.term, k_)]))
             return st.alloc(av)
         if t == 'none':
             return None
@@ -645,6 +666,30 @@ class FuncVerifier(object):
             else:
                 st.heap[base.loc] = AV(const_array(av.ndim, av.elem, as_num(val)), av.shape, av.elem)
             return
+        if self.mask_subscript(sl, st) is not None:
+            self.mask_scatter(base, av, self.mask_subscript(sl, st), val, st, node)
+            return
+        if not isinstance(sl, (ast.Tuple, ast.Slice)) and av.ndim == 1 and not isinstance(val, (Ref, View, AV, tuple)):
+            iv_ = self.pev(sl, st)
+            if isinstance(iv_, (Ref, AV)) and not (isinstance(iv_, Ref) and not isinstance(st.heap[iv_.loc], AV)):
+                ia = self.deref(iv_, st)
+                if ia.ndim == 1 and ia.elem == 'int':
+                    # m[idx] = scalar with an integer index array: every listed position gets the value
+                    k_, c_ = fresh('k', I), fresh('c', I)
+                    self.oblige(st, self.site(node, 'bounds'), z3.ForAll([k_], z3.Implies(z3.And(0 <= k_, k_ < ia.shape[0]),
+                                z3.And(0 <= z3.Select(ia.term, k_), z3.Select(ia.term, k_) < av.shape[0]))), node)
+                    v_ = self.coerce_elem(val, 'int' if av.elem == 'bool' else av.elem, node)
+                    if av.elem == 'bool':
+                        v_ = z3.If(v_ != 0, z3.IntVal(1), z3.IntVal(0))
+                    new = fresh('scat', av.term.sort())
+                    # hit(c) <=> c is one of the listed positions, through a witness function (no quantifier alternation)
+                    hit = z3.Function(fresh_name('hit'), I, B)
+                    wit = z3.Function(fresh_name('wit'), I, I)
+                    st.pc.append(z3.ForAll([k_], z3.Implies(z3.And(0 <= k_, k_ < ia.shape[0]), hit(z3.Select(ia.term, k_))), patterns=[z3.Select(ia.term, k_)]))
+                    st.pc.append(z3.ForAll([c_], z3.Implies(hit(c_), z3.And(0 <= wit(c_), wit(c_) < ia.shape[0], z3.Select(ia.term, wit(c_)) == c_)), patterns=[hit(c_)]))
+                    st.pc.append(z3.ForAll([c_], z3.Select(new, c_) == z3.If(hit(c_), v_, z3.Select(av.term, c_)), patterns=[z3.Select(new, c_)]))
+                    st.heap[base.loc] = AV(new, av.shape, av.elem)
+                    return
         if isinstance(sl, ast.Tuple) and any(isinstance(e, ast.Slice) for e in sl.elts):
             self.write_region(base, av, sl, val, st, node)
             return
@@ -1315,6 +1360,8 @@ class FuncVerifier(object):
             k_ = fresh('k', I)
             st.pc.append(z3.ForAll([k_], z3.Select(res, k_) == z3.Select(av.term, k_ + lo), patterns=[z3.Select(res, k_)]))
             return st.alloc(AV(res, (hi - lo,) + tuple(av.shape[1:]), av.elem))
+        if isinstance(v, (Ref, View)) and self.mask_subscript(sl, st) is not None:
+            return self.mask_gather(self.deref(v, st), self.mask_subscript(sl, st), st, n)
         if isinstance(v, (Ref, View)) and isinstance(sl, ast.Tuple) and any(isinstance(e, ast.Slice) for e in sl.elts):
             return self.read_region(self.deref(v, st), sl, st, n)
         if isinstance(v, (Ref, View)):
@@ -1342,6 +1389,55 @@ class FuncVerifier(object):
                 return AV(t, av.shape[len(idx):], av.elem)      # value snapshot (read-only use)
             raise OutOfFragment('too many indices', n)
         raise OutOfFragment('subscript of %s' % type(v).__name__, n)
+
+    # ------------------------------------------------------------------ boolean-mask column indexing  a[:, m]
+    def mask_subscript(self, sl, st):
+        """the boolean mask array of a subscript  [:, m]  (None if the subscript is not of that form)"""
+        if not (isinstance(sl, ast.Tuple) and len(sl.elts) == 2 and isinstance(sl.elts[0], ast.Slice)
+                and sl.elts[0].lower is None and sl.elts[0].upper is None and sl.elts[0].step is None
+                and isinstance(sl.elts[1], ast.Name)):
+            return None
+        v = st.env.get(sl.elts[1].id)
+        if isinstance(v, Ref) and isinstance(st.heap.get(v.loc), AV) and st.heap[v.loc].elem == 'bool' and st.heap[v.loc].ndim == 1:
+            return st.heap[v.loc]
+        return None
+
+    def mask_facts(self, m, st):
+        """numpy semantics of boolean indexing for this mask term: the assumed lemma `mask_index` instantiated"""
+        lem = self.lib.lemmas['mask_index']
+        _, post = instantiate_lemma(self.lib, lem, [m, m.shape[0]])
+        for p_ in post:
+            if not any(z3.eq(p_, h) for h in st.pc):
+                st.pc.append(p_)
+        self.used_axioms = getattr(self, 'used_axioms', set()) | {'mask_index'}
+        th = self.lib.theory
+        return th.decls['MaskIdx'](m.term, m.shape[0]), th.decls['MaskCnt'](m.term, m.shape[0]), th.decls['MaskPos'](m.term, m.shape[0])
+
+    def mask_gather(self, av, m, st, node):
+        if av.ndim != 2:
+            raise OutOfFragment('mask indexing of a non-2-D array', node)
+        self.oblige(st, self.site(node, 'shape'), m.shape[0] == av.shape[1], node)
+        idx, cnt, pos = self.mask_facts(m, st)
+        # every row of the result IS the spec term Compress(row, m, n) (so that spec functions of the gathered rows and of
+        # Compress(...) are the same terms); the pointwise meaning comes from the definition of Compress
+        res = fresh_array('gather', 2, av.elem, shape=(av.shape[0], cnt))
+        r_ = fresh('r', I)
+        lhs = z3.Select(res.term, r_)
+        st.pc.append(z3.ForAll([r_], lhs == self.lib.theory.decls['Compress'](z3.Select(av.term, r_), m.term, m.shape[0]), patterns=[lhs]))
+        return st.alloc(res)
+
+    def mask_scatter(self, base, av, m, val, st, node):
+        if av.ndim != 2 or not isinstance(val, (Ref, View, AV)):
+            raise OutOfFragment('mask assignment form', node)
+        src = self.deref(val, st)
+        idx, cnt, pos = self.mask_facts(m, st)
+        self.oblige(st, self.site(node, 'shape'), z3.And(m.shape[0] == av.shape[1], src.ndim == 2, src.shape[0] == av.shape[0], src.shape[1] == cnt) if src.ndim == 2 else z3.BoolVal(False), node)
+        new = fresh('scatter', av.term.sort())
+        r_, c_ = fresh('r', I), fresh('c', I)
+        lhs = z3.Select(z3.Select(new, r_), c_)
+        rhs = z3.If(z3.Select(m.term, c_) != 0, z3.Select(z3.Select(src.term, r_), z3.Select(pos, c_)), z3.Select(z3.Select(av.term, r_), c_))
+        st.pc.append(z3.ForAll([r_, c_], z3.Implies(z3.And(0 <= c_, c_ < av.shape[1]), lhs == rhs), patterns=[lhs]))
+        st.heap[base.loc] = AV(new, av.shape, av.elem)
 
     # ------------------------------------------------------------------ rectangular regions  a[j, lo:hi], a[:, lo:hi], a[lo:hi, c]
     def region_spec(self, av, sl, st, node):
@@ -1653,6 +1749,17 @@ class FuncVerifier(object):
         raise OutOfFragment('control flow %r leaving inlined %s' % (ctl, fdef.name), node)
 
     def call_builtin(self, name, n, st):
+        if name == 'max' and len(n.args) == 1 and not n.keywords:
+            v = self.pev(n.args[0], st)
+            if isinstance(v, (Ref, View)) and not (isinstance(v, Ref) and not isinstance(st.heap[v.loc], AV)):
+                av = self.deref(v, st)
+                if av.ndim != 1 or av.elem not in ('int', 'bool'):
+                    raise OutOfFragment('max of this array', n)
+                self.oblige(st, self.site(n, 'max'), av.shape[0] >= 1, n)      # max() of an empty sequence raises
+                mx, k_, w_ = fresh('max', I), fresh('k', I), fresh('w', I)
+                st.pc.append(z3.ForAll([k_], z3.Implies(z3.And(0 <= k_, k_ < av.shape[0]), z3.Select(av.term, k_) <= mx), patterns=[z3.Select(av.term, k_)]))
+                st.pc.append(z3.And(0 <= w_, w_ < av.shape[0], z3.Select(av.term, w_) == mx))
+                return mx
         if name == 'isinstance' and len(n.args) == 2:
             v = self.pev(n.args[0], st)
             targets = n.args[1].elts if isinstance(n.args[1], ast.Tuple) else [n.args[1]]
@@ -1729,14 +1836,22 @@ class FuncVerifier(object):
                 dtype = 'int'
             elif d in ('numpy.complex_', 'np.complex_', 'numpy.complex128', 'complex'):
                 dtype = 'cplx'
-            elif d in ('numpy.bool_',):
-                raise OutOfFragment('boolean arrays', n)
+            elif d in ('numpy.bool_', 'np.bool_', 'bool'):
+                dtype = 'bool'
             elif d.endswith('.dtype'):
                 dv = self.pev(kw['dtype'], st)
                 dtype = dv[1]
             else:
                 raise OutOfFragment('dtype %s' % d, n)
         short = name.split('.', 1)[1] if '.' in name else name
+        if short == 'repeat':
+            # numpy.repeat(m, 2) of a 1-D array: the canonical spec term Repeat2(m)
+            if len(n.args) != 2 or n.keywords or not (isinstance(n.args[1], ast.Constant) and n.args[1].value == 2):
+                raise OutOfFragment('numpy.repeat other than repeat(a, 2)', n)
+            av = self.deref(self.pev(n.args[0], st), st)
+            if av.ndim != 1:
+                raise OutOfFragment('numpy.repeat of a non-1-D array', n)
+            return st.alloc(AV(self.lib.theory.decls['Repeat2'](av.term), (2 * av.shape[0],), av.elem))
         if short == 'ones':
             shp = self.shape_arg(self.pev(n.args[0], st), n)
             if dtype == 'int':
@@ -1753,7 +1868,7 @@ class FuncVerifier(object):
             for d in shp:
                 self.oblige(st, self.site(n, 'alloc'), d >= 0, n)
             if short == 'zeros':
-                zero = {'int': z3.IntVal(0), 'real': z3.RealVal(0)}.get(dtype)
+                zero = {'int': z3.IntVal(0), 'real': z3.RealVal(0), 'bool': z3.IntVal(0)}.get(dtype)
                 if zero is None:
                     av = fresh_array('zc', len(shp), dtype, shp)
                 else:
@@ -1971,6 +2086,14 @@ class FuncVerifier(object):
             result = tuple(mk(d, k) for k, d in enumerate(callee.returns))
         else:
             result = mk(callee.returns, 0)
+        if callee.result_term is not None:
+            # the callee's contract names a spec term that its result equals on its whole index range (an `ensures` of the callee,
+            # proved there); arrays are determined by their in-range content, so the call site uses that very term
+            if not (isinstance(result, Ref) and isinstance(st.heap.get(result.loc), AV)):
+                raise ContractError('result_term on a non-array result of %s' % fname)
+            rt = spre.ev(callee.result_term)
+            old_av = st.heap[result.loc]
+            st.heap[result.loc] = AV(rt.term, old_av.shape, old_av.elem)
         env_post = dict(env)
         env_post['result'] = result
         spost = SpecEval(self.lib.theory, env_post, st.heap, env, heap_pre, self.lib.preds)
